@@ -15,7 +15,6 @@ import numpy as np
 
 from .. import core
 from ..ref import adjref
-from ..ref.lang import tuplify
 
 ID = "C11"
 LEVEL_RULE = (
@@ -36,6 +35,13 @@ ASSUMPTIONS = [
     "(logaddexp, add) data are logs of the (add, mul) data; semiring zero cells are 0.0 resp. -inf",
     "an exception, or a forward value / adjoint that is not a ground Tensor/Number, is a decline",
     "reductions range only over variables the reduced operand mentions (reductions over absent variables belong to C08)",
+    "a leaf with an input name that is bound by an inner reduction and also free in the root has no representable "
+    "'kept' adjoint (two variables, one name): it is compared under the 'total' convention",
+    "a leaf used once plainly and once through a substitution while the root keeps free inputs the leaf lacks is not "
+    "compared (the two conventions above contradict each other there); counted as skip-mixed-convention",
+    "on the optimizer routes a leaf whose data array is no longer a leaf of apply_optimizer(expr) is not compared",
+    "violation features name the structural situations (mechanisms) found by hand analysis to be wrong on the pinned tree; "
+    "the driver reports violations that none of them explains first",
 ]
 
 SIZES = {"a": 2, "b": 3, "c": 2, "d": 1}
@@ -726,8 +732,6 @@ def _check(case, seed):
     if g is None:
         return core.decline(key, "forward-lazy:" + type(fwd).__name__.split("[")[0])
     verdict, msg = compare(g, fwd_ref)
-    if verdict == "ok" and set(g[0]) != set(free) and any(fwd_ref.size(n) > 1 for n in free if n not in g[0]):
-        pass  # inputs omitted because the table does not depend on them: allowed
     if verdict != "ok":
         return core.violation(key, "forward", "forward value of forward_backward differs from the brute-force table (%s): %s\n  %s" % (verdict, msg, describe(case)),
                               case, dict(feats, what=verdict), snippet(case, seed))
